@@ -235,6 +235,46 @@ func runLimits(seed uint64, cas int, tier string) *LimRes {
 			}
 			s.exec(&Op{K: OpCreate, H: md.FH, Name: names[len(names)-1]}) // must be refused: it exists
 			s.exec(&Op{K: OpReaddir, H: md.FH, Count: 1 << 20})
+			// names of the maximum length "behave normally": the directory can be
+			// listed page by page with the small limits real clients use
+			for _, pl := range []struct {
+				plus       bool
+				cnt, dcnt  uint32
+			}{{true, 300, 100}, {true, 1000, 64}, {true, 400, 4096}, {false, 200, 0}, {false, 300, 0}}[round:] {
+				seen := map[string]int{}
+				cookie, calls, eof := uint64(0), 0, false
+				for !eof && calls <= len(names)+5 {
+					k := OpReaddir
+					if pl.plus {
+						k = OpReaddirplus
+					}
+					r := s.exec(&Op{K: k, H: md.FH, Cookie: cookie, Count: pl.cnt, Dircount: pl.dcnt})
+					calls++
+					if r.Stat != stOK {
+						viol("directory of %d names of the maximum length: %s count=%d dircount=%d at cookie %d: status %d", len(names), k, pl.cnt, pl.dcnt, cookie, r.Stat)
+						break
+					}
+					if len(r.Ents) == 0 && !r.Eof {
+						viol("directory of %d names of the maximum length (name_max %d): %s count=%d dircount=%d at cookie %d returns no entry and not end-of-directory: the names cannot be listed", len(names), lim.NameMax, k, pl.cnt, pl.dcnt, cookie)
+						break
+					}
+					for _, e := range r.Ents {
+						seen[e.Name]++
+						cookie = e.Cookie
+					}
+					eof = r.Eof
+				}
+				if eof {
+					for _, n := range names {
+						if seen[n] != 1 {
+							viol("directory of %d names of the maximum length: name of %d bytes listed %d times by a page-by-page enumeration (plus=%v count=%d dircount=%d)", len(names), len(n), seen[n], pl.plus, pl.cnt, pl.dcnt)
+							break
+						}
+					}
+				} else if len(res.Viol) == 0 {
+					viol("directory of %d names of the maximum length: enumeration (plus=%v count=%d dircount=%d) did not end within %d calls", len(names), pl.plus, pl.cnt, pl.dcnt, calls)
+				}
+			}
 		}
 		note("namemax", 0, "44 names of the maximum length in one directory", true)
 		for _, n := range names {
